@@ -207,10 +207,19 @@ func TestVerifC17Gossip(t *testing.T) {
 			nGaps := c.Range(6, 18)
 			for g := 0; g < nGaps && !c.Violated(); g++ {
 				nops := c.Range(1, 6)
+				var lastIHave *gsPup
 				for o := 0; o < nops && !c.Violated(); o++ {
 					gp := w.pups[c.Intn(nP)]
+					opk := c.Intn(8)
+					if lastIHave != nil && c.Chance(0.35) {
+						// several advertisements from one peer inside one heartbeat interval share its request budget
+						gp, opk = lastIHave, 3
+					}
+					if opk == 3 {
+						lastIHave = gp
+					}
 					p := gp.p.ID()
-					switch c.Intn(8) {
+					switch opk {
 					case 0, 1: // local publish
 						id := newID()
 						size := sizes[c.Intn(len(sizes))]
@@ -500,6 +509,178 @@ func TestVerifC17Gossip(t *testing.T) {
 				}
 				c.Sample(map[string]any{"params": fmt.Sprintf("H=%d G=%d MaxIHaveLen=%d MaxIHaveMsgs=%d Retx=%d IDWTTL=%d", params.HistoryLength, params.HistoryGossip, params.MaxIHaveLength, params.MaxIHaveMessages, params.GossipRetransmission, params.IDontWantMessageTTL),
 					"first_ops": h, "classes": classes})
+			}
+		})
+	})
+}
+
+// C17.promise — a peer is penalised for a broken IWANT promise only if the
+// requested message really did not arrive from anyone within the follow-up
+// time. One advertiser per promise, the message arrives (from the advertiser
+// or from somebody else) before / after the deadline or never, and the node's
+// validators take anything from no time to longer than the follow-up time
+// (a message that sits in validation has arrived).
+func TestVerifC17Promise(t *testing.T) {
+	vRun(t, "C17.promise", vCount(300, 6000), func(c *vCase) {
+		c.Bubble(func() {
+			params := vFastParams()
+			params.D, params.Dlo, params.Dhi, params.Dscore, params.Dout = 2, 1, 3, 1, 0
+			params.IWantFollowupTime = time.Duration(c.Range(1, 3)) * time.Second
+			params.MaxIHaveLength, params.MaxIHaveMessages = 50, 20
+			F := params.IWantFollowupTime
+			th := PeerScoreThresholds{GossipThreshold: -1e6, PublishThreshold: -2e6, GraylistThreshold: -3e6, AcceptPXThreshold: 1000, OpportunisticGraftThreshold: 0}
+			valDelay := []time.Duration{0, 0, 200 * time.Millisecond, F + 1500*time.Millisecond, F + 2500*time.Millisecond}[c.Intn(5)]
+			valInline := c.Chance(0.3)
+			slow := func(ctx context.Context, p peer.ID, m *Message) ValidationResult {
+				if valDelay > 0 {
+					time.Sleep(valDelay) // takes its time whatever its context says
+				}
+				return ValidationAccept
+			}
+			w := gsNewWorld(c, gsConfig{params: params, th: th, scoring: true, nPups: c.Range(2, 5), floodSub: 0, bpWeight: -1, bpDecay: 0.999,
+				opts: []Option{WithMessageIdFn(c17ID), WithDefaultValidator(slow, WithValidatorInline(valInline), WithValidatorTimeout(time.Minute))}})
+			if w == nil {
+				return
+			}
+			defer w.Close()
+			nd := w.nd
+			for _, gp := range w.pups {
+				if !w.attach(gp) {
+					c.Inconclusive("attach")
+					return
+				}
+				w.send(gp, vSubRPC(true, "t"))
+			}
+			vSettle(10 * time.Millisecond)
+			if _, err := w.handle("t").Subscribe(); err != nil {
+				panic(err)
+			}
+			w.r.ToNextGap(30 * time.Millisecond)
+			type promise struct {
+				id      string
+				adv     *gsPup
+				asked   time.Time
+				arrival string // how the message arrives
+				arrived time.Time
+			}
+			var ps []*promise
+			classes := map[string]int{}
+			nProm := c.Range(1, 5)
+			seq := uint64(1)
+			for k := 0; k < nProm; k++ {
+				adv := w.pups[c.Intn(len(w.pups))]
+				id := fmt.Sprintf("q%04d", k)
+				tt := "t"
+				mark := adv.p.WireLen()
+				w.send(adv, &pb.RPC{Control: &pb.ControlMessage{Ihave: []*pb.ControlIHave{{TopicID: &tt, MessageIDs: []string{id}}}}})
+				vSettle(10 * time.Millisecond)
+				askedFor := false
+				for _, wr := range adv.p.WireSince(mark) {
+					for _, iw := range wr.RPC.GetControl().GetIwant() {
+						for _, x := range iw.GetMessageIDs() {
+							if x == id {
+								askedFor = true
+							}
+						}
+					}
+				}
+				if !askedFor {
+					classes["not_requested"]++
+					continue
+				}
+				p := &promise{id: id, adv: adv, asked: time.Now(), arrival: []string{"in_time", "in_time", "in_time_from_other", "late", "never", "just_in_time"}[c.Intn(6)]}
+				ps = append(ps, p)
+				w.note("promise(%s by %s, arrival %s)", id, adv.p.name, p.arrival)
+			}
+			// deliveries, in order of their offsets
+			type delivery struct {
+				p    *promise
+				at   time.Duration
+				from *gsPup
+			}
+			var ds []delivery
+			for _, p := range ps {
+				from := p.adv
+				var at time.Duration
+				switch p.arrival {
+				case "in_time":
+					at = time.Duration(c.Range(1, int(F/time.Millisecond)/2)) * time.Millisecond
+				case "just_in_time":
+					at = F - 30*time.Millisecond
+				case "in_time_from_other":
+					at = time.Duration(c.Range(1, int(F/time.Millisecond)/2)) * time.Millisecond
+					for _, q := range w.pups {
+						if q != p.adv {
+							from = q
+						}
+					}
+				case "late":
+					at = F + time.Duration(c.Range(1200, 2500))*time.Millisecond
+				case "never":
+					continue
+				}
+				ds = append(ds, delivery{p, at, from})
+			}
+			sort.Slice(ds, func(i, j int) bool { return ds[i].at < ds[j].at })
+			start := time.Now()
+			bp0 := nd.Snap().BP
+			for _, d := range ds {
+				if wait := d.at - time.Since(start); wait > 0 {
+					time.Sleep(wait)
+				}
+				seq++
+				w.send(d.from, vMsgRPC(vSignedMsg(d.from.p.key, "t", vSeqno(seq), c17Data(d.p.id, 40))))
+				d.p.arrived = time.Now()
+				w.note("deliver(%s from %s)", d.p.id, d.from.p.name)
+			}
+			// past every deadline, every late arrival and every validation, plus two heartbeats
+			time.Sleep(F + 3*time.Second + valDelay + 2*params.HeartbeatInterval - time.Since(start))
+			vSettle(50 * time.Millisecond)
+			bp := nd.Snap().BP
+			// per advertiser: promises that were broken (nothing arrived by asked + follow-up time)
+			for _, gp := range w.pups {
+				broken, kept := 0, 0
+				for _, p := range ps {
+					if p.adv != gp {
+						continue
+					}
+					due := p.asked.Add(F)
+					if p.arrived.IsZero() || p.arrived.After(due) {
+						broken++
+					} else {
+						kept++
+					}
+				}
+				delta := bp[gp.p.ID()] - bp0[gp.p.ID()]
+				// decay 0.999 per decay interval keeps the counter within 1 % over the run
+				if delta > float64(broken)+0.01 {
+					h := w.hist
+					c.Violatef(map[string]string{"kind": "promise_penalty_unjustified", "validation": map[bool]string{true: "slower_than_followup", false: "fast"}[valDelay > F]},
+						"followup=%v validator delay=%v inline=%v: behaviour penalty of %s rose by %v with %d broken and %d kept promises\n history=%v", F, valDelay, valInline, gp.p.name, delta, broken, kept, h)
+					return
+				}
+				if broken > 0 && delta < 0.5 {
+					classes["broken_not_penalised"]++ // the statement only says "only if"
+				}
+				if broken > 0 {
+					classes["broken"]++
+				}
+				if kept > 0 {
+					classes["kept"]++
+				}
+			}
+			var ks []string
+			for k, v := range classes {
+				c.Count("class:"+k, v)
+				ks = append(ks, k)
+			}
+			sort.Strings(ks)
+			c.Count("promises", len(ps))
+			c.Sig(F, valDelay, valInline, strings.Join(ks, ","), len(ps))
+			c.Nontrivial(len(ps) > 0)
+			c.State(valDelay > F, strings.Join(ks, ","))
+			if c.Idx < 2 {
+				c.Sample(map[string]any{"followup": F.String(), "validator_delay": valDelay.String(), "promises": len(ps), "classes": classes, "history": w.hist})
 			}
 		})
 	})
